@@ -351,20 +351,32 @@ class GalliaBaseModel(BaseCommand, ABC):
                         else attribute
                     )
                     description = "" if info.description is None else info.description
+                    default = info.default
+
+                    # Several config classes may declare the same config key with different
+                    # defaults. The template must not pin one of them, since this would
+                    # silently change the default of the other commands.
+                    try:
+                        previous = GalliaBaseModel.__config_registry.get(config_attribute)
+                    except (AttributeError, TypeError):
+                        previous = None
+
+                    if previous is not None and previous[1] != default:
+                        default = PydanticUndefined
 
                     # TODO: Private attributes are write protected and throw a TypeError
                     # This is a quick hack to make it work nonetheless
                     try:
                         GalliaBaseModel.__config_registry[config_attribute] = (
                             description,
-                            info.default,
+                            default,
                         )
                     except TypeError:
                         GalliaBaseModel.__config_registry = {}
 
                     GalliaBaseModel.__config_registry[config_attribute] = (
                         description,
-                        info.default,
+                        default,
                     )
 
     @classmethod
